@@ -249,6 +249,7 @@ class Emitter:
                 if ins.res is not None: defs[ins.res] = ins
         self.cur_defs = defs
         self.cur_blocks = F.blocks
+        self.cur_fname = F.name
 
         def edge(frm, to):
             cs = []
@@ -579,17 +580,28 @@ class Emitter:
             # typed allocation: operator new followed by a bitcast of the result
             if bare in ('_Znwm', '__cxa_allocate_exception') and ins.res is not None:
                 tt = None
-                # the typed view of the fresh object: first bitcast of the result anywhere in the function
-                # (an `invoke` of operator new has its bitcast in the normal-destination block)
+                sz = ins.args[0][1]
+                # the typed view of the fresh object: a bitcast of the result (anywhere in the function: an `invoke` of
+                # operator new has its bitcast in the normal-destination block) to a type of matching size
+                def fits(t):
+                    try:
+                        return isinstance(sz, CInt) and M.sizeof(t) >= sz.v and M.sizeof(t) - sz.v < 16
+                    except Exception:
+                        return False
                 for j in [x for b in self.cur_blocks.values() for x in b]:
                     if j.op == 'cast' and j.kind == 'bitcast' and isinstance(j.val, Local) and j.val.n == ins.res:
                         ft = self.rs(j.tty)
                         if isinstance(ft, PtrTy) and not isinstance(ft.to, (FnTy, OtherTy)):
                             if not (isinstance(ft.to, NamedTy) and M.types.get(ft.to.name) is None):
-                                if not (isinstance(self.rs(ft.to), IntTy)):
+                                if not isinstance(self.rs(ft.to), IntTy) and fits(ft.to):
                                     tt = ft.to
                                     break
-                sz = ins.args[0][1]
+                if tt is None and bare == '_Znwm':
+                    # a coroutine ramp function allocates its frame as raw bytes; the frame's struct type is named after it
+                    fn = self.cur_fname[1:].strip('"')
+                    for cand in ('%"' + fn + '.Frame"', '%' + fn + '.Frame'):
+                        if M.types.get(cand) is not None and fits(NamedTy(cand)):
+                            tt = NamedTy(cand)
                 if tt is not None and isinstance(sz, CInt) and M.sizeof(tt) >= sz.v and M.sizeof(tt) - sz.v < 16:
                     ct = self.cty(tt)
                     self.new_types[ct] = True
